@@ -69,4 +69,13 @@ def roundTrip (b : BBox) : Outcome BBox :=
   | .err => .err
   | .panic => .panic
 
+/-- `TileBBoxPyramid::intersect_geo_bbox` (tile_bbox_pyramid.rs:94-101): every level is
+    intersected with `from_geo(level, g).unwrap()`; both `unwrap`s turn an error into a panic -/
+def pyramidIntersectGeo (p : List BBox) (g : GeoBBox) : Outcome (List BBox) :=
+  BBox.mapM (fun pr : BBox × Nat =>
+    match (bboxFromGeo pr.2 g).unwrap with
+    | .ok gb => (pr.1.intersectBBox gb).unwrap
+    | .err => .panic
+    | .panic => .panic) p.zipIdx
+
 end VtModel.Geo
